@@ -19,7 +19,16 @@ import (
 
 type Rng struct{ s uint64 }
 
-func NewRng(seed uint64) *Rng { return &Rng{s: seed*0x9E3779B97F4A7C15 + 0x1234567} }
+// NewRng seeds a generator. The seed goes through the splitmix finaliser first: the state advances
+// by a fixed constant per draw, so without mixing the streams of adjacent seeds would be shifted
+// copies of each other.
+func NewRng(seed uint64) *Rng {
+	z := seed + 0x1234567
+	z = (z ^ (z >> 30)) * 0xBF58476D1CE4E5B9
+	z = (z ^ (z >> 27)) * 0x94D049BB133111EB
+	z ^= z >> 31
+	return &Rng{s: z ^ 0xD6E8FEB86659FD93}
+}
 
 func (r *Rng) U64() uint64 {
 	r.s += 0x9E3779B97F4A7C15
